@@ -42,7 +42,7 @@ BASE = dict(
     infeasible_prob=15, debug_prob=0, nl_forms=[("NC", 1)],
     limit_pats=[("le", 4), ("ge", 3), ("two", 4), ("eq", 2), ("free", 1)],
 )
-KINDS = ["fixed", "array", "dict", "split", "splitlin", "merge", "order", "scale", "lin"]
+KINDS = ["fixed", "array", "dict", "split", "splitlin", "merge", "order", "scale", "lin", "sharefun"]
 
 
 def budget(tier):
@@ -83,6 +83,9 @@ def strategy_c10(draw):
         prof["max_nl"] = 3
         prof["limit_pats"] = ([("two", 3), ("le", 2), ("ge", 1)] if kind == "split"
                               else [("le", 4), ("eq", 3), ("ge", 2), ("two", 1)])
+    if kind == "sharefun":
+        prof.update(min_nl=2, max_nl=3, nl_forms=[("NC", 1)], faults=0, mutate_prob=0,
+                    limit_pats=[("two", 4), ("le", 2), ("ge", 1)])
     if kind == "splitlin":
         prof["max_lin"] = 3
         prof["limit_pats"] = [("two", 4), ("le", 2), ("ge", 2)]
@@ -205,6 +208,35 @@ def restate(kind, base):
         for r, N in enumerate(b["nl"]):
             N["pos"] = 50 + r
         return a, b, changed
+    if kind == "sharefun":
+        # the two halves of a two-sided constraint listed apart, [f >= lo, <other constraints>, f <= hi]:
+        # statement a gives each half its own (equal) function, statement b passes the very same function
+        # object to both halves - which must not matter
+        nl = a["nl"]
+        if len(nl) < 2:
+            return a, b, False
+        N0 = nl[0]
+        lo, hi = np.array(N0["lb"], float), np.array(N0["ub"], float)
+        if not (np.all(np.isfinite(lo)) and np.all(np.isfinite(hi)) and np.all(lo < hi)) or N0.get("args") \
+                or any(N.get("args") for N in nl):
+            return a, b, False
+
+        def halves(share):
+            n1, n2 = copy.deepcopy(N0), copy.deepcopy(N0)
+            n1["ub"] = [math.inf] * len(lo)
+            n2["lb"] = [-math.inf] * len(lo)
+            for q in (n1, n2):
+                q.pop("lb_scalar", None)
+                q.pop("ub_scalar", None)
+            rest = [copy.deepcopy(N) for N in nl[1:]]
+            out_ = [n1] + rest + [n2]
+            if share:
+                out_[-1]["share_with"] = 0
+            for r, N in enumerate(out_):
+                N["pos"] = 50 + r
+            return out_
+        a["nl"], b["nl"] = halves(False), halves(True)
+        return a, b, True
     if kind == "splitlin":
         # a two-sided LinearConstraint vs the two one-sided ones, upper part first (the order of the
         # internal form: rows (A, ub) then (-A, -lb))
